@@ -38,7 +38,9 @@ def confirm(seed: pathlib.Path) -> int:
         import re
 
         text = re.sub(r"/tmp/seed-c\d+[a-z]?", wt, text)
-        local = pathlib.Path(wt) / "seed_demo.py"
+        # some demos find the repository relative to their own place (seed_out/<n>/demo.py)
+        local = pathlib.Path(wt) / "seed_out" / "1" / "demo.py"
+        local.parent.mkdir(parents=True, exist_ok=True)
         local.write_text(text)
         env = dict(os.environ, PYTHONPATH=wt)
         before = sh(["/venv/bin/python", str(local)], cwd=wt, env=env, capture_output=True, text=True, timeout=1800)
